@@ -44,6 +44,10 @@ class _HMixin:
         self.sh.log("begin_enter", wid=self.wid, serial=self.serial)
         if self.begin_delay:
             self.sh.nap(self.begin_delay)      # a slow begin(): until_all_ready() has something to wait for
+        if WORKER_OPTS.get("quota_in_begin") is not None:
+            # the chunk limit is decided inside the worker process (read from its configuration in begin()): the object the
+            # parent holds never learns about it
+            self.max_chunks_per_worker = WORKER_OPTS["quota_in_begin"]
         if self.fault and self.fault[0] == "begin":
             self.sh.log("begin_raise", wid=self.wid)
             if self.fault[-1] == "system_exit":
@@ -95,7 +99,9 @@ class HWorker(_HMixin, FunctorWorker):
     """Default (fork) context: the repository's FunctorWorker."""
 
     def __init__(self, shared, quota=math.inf, fault=None, serial=0, end_delay=0, begin_delay=0, plan=None):
-        if WORKER_OPTS.get("quota_after_init"):
+        if WORKER_OPTS.get("quota_in_begin") is not None:
+            FunctorWorker.__init__(self)            # no limit known in the parent
+        elif WORKER_OPTS.get("quota_after_init"):
             # a subclass that calls super().__init__() and sets the documented attribute itself
             FunctorWorker.__init__(self)
             self.max_chunks_per_worker = quota
